@@ -118,8 +118,11 @@ Definition mz_flag_ok (c : mz_cfg) (f : mz_flag) : bool :=
   end.
 
 (* does the handler get past all its refusal checks? *)
+Definition mz_authorise_core (t : mz_tree) (c : mz_cfg) (s : mz_conn) (m : mz_msg)
+                             (ep : bool) (p : mz_pattern) (f : mz_flag) : bool :=
+  (if ep then mz_is_some (mz_ep s) else true) && mz_origin_ok t c s m p && mz_flag_ok c f.
 Definition mz_authorise (t : mz_tree) (c : mz_cfg) (s : mz_conn) (m : mz_msg) (r : mz_row) : bool :=
-  (if mz_rep r then mz_is_some (mz_ep s) else true) && mz_origin_ok t c s m (mz_rpat r) && mz_flag_ok c (mz_rflag r).
+  mz_authorise_core t c s m (mz_rep r) (mz_rpat r) (mz_rflag r).
 
 (* ---- MessageHandler around the dispatch ---- *)
 Inductive mz_ts := MzTsNone | MzTsOld | MzTsNew.   (* no "ts" / ts < endpoint's remote log position / ts >= it *)
@@ -131,13 +134,17 @@ Definition mz_ts_is (a b : mz_ts) : bool :=
   match a, b with MzTsNone, MzTsNone | MzTsOld, MzTsOld | MzTsNew, MzTsNew => true | _, _ => false end.
 
 (* [row] = ApiFunction::GetByName(method) as listed in the generated table; [eff] = the handler has any effect at all *)
-Definition mz_handle (t : mz_tree) (c : mz_cfg) (s : mz_conn) (m : mz_msg) (ts : mz_ts)
-                     (row : option mz_row) (eff : bool) : mz_out :=
+Definition mz_handle_core (t : mz_tree) (c : mz_cfg) (s : mz_conn) (m : mz_msg) (ts : mz_ts)
+                          (row : option (bool * mz_pattern * mz_flag)) (eff : bool) : mz_out :=
   let ep := mz_is_some (mz_ep s) in
   if ep && mz_ts_is ts MzTsOld then {| mz_dropped := true; mz_rlp := false; mz_applied := false |}
   else {| mz_dropped := false;
           mz_rlp := ep && mz_ts_is ts MzTsNew;
-          mz_applied := match row with Some r => mz_authorise t c s m r && eff | None => false end |}.
+          mz_applied := match row with Some (e, p, f) => mz_authorise_core t c s m e p f && eff | None => false end |}.
+Definition mz_row_core (r : mz_row) : bool * mz_pattern * mz_flag := (mz_rep r, mz_rpat r, mz_rflag r).
+Definition mz_handle (t : mz_tree) (c : mz_cfg) (s : mz_conn) (m : mz_msg) (ts : mz_ts)
+                     (row : option mz_row) (eff : bool) : mz_out :=
+  mz_handle_core t c s m ts (option_map mz_row_core row) eff.
 
 (* ---- the property's relation, written directly on the zone tree ---- *)
 Inductive mz_anc (t : mz_tree) : nat -> nat -> Prop :=      (* a is z or lies below z *)
